@@ -47,6 +47,42 @@ impl PanicInfo {
 
 thread_local! {
     static LAST_PANIC: RefCell<Option<PanicInfo>> = const { RefCell::new(None) };
+    /// cooperative per-run wall-clock budget (a changed library can make single updates thousands of times
+    /// slower, e.g. a window that is never evicted and is rescanned on every update)
+    static DEADLINE: std::cell::Cell<Option<std::time::Instant>> = const { std::cell::Cell::new(None) };
+    static TICKS: std::cell::Cell<u32> = const { std::cell::Cell::new(0) };
+}
+
+pub const RUN_BUDGET_SECS: u64 = 90;
+
+/// start the budget of the run executing on this thread
+pub fn arm_deadline() {
+    DEADLINE.with(|d| d.set(Some(std::time::Instant::now() + std::time::Duration::from_secs(RUN_BUDGET_SECS))));
+    TICKS.with(|t| t.set(0));
+}
+pub fn disarm_deadline() {
+    DEADLINE.with(|d| d.set(None));
+}
+#[inline]
+fn deadline_passed() -> bool {
+    let n = TICKS.with(|t| {
+        let n = t.get().wrapping_add(1);
+        t.set(n);
+        n
+    });
+    if n % 2048 != 0 {
+        return false;
+    }
+    DEADLINE.with(|d| match d.get() {
+        Some(dl) => std::time::Instant::now() > dl,
+        None => false,
+    })
+}
+pub const TIMEOUT_MSG: &str = "RUN-TIME-BUDGET";
+impl PanicInfo {
+    pub fn is_timeout(&self) -> bool {
+        self.msg == TIMEOUT_MSG
+    }
 }
 
 pub fn install_hook() {
@@ -87,6 +123,10 @@ pub fn try_build<T: Scalar>(spec: &Spec, ctx: &mut Ctx) -> Result<Dyn<T>, PanicI
 }
 #[inline]
 pub fn try_update<T: Scalar>(v: &mut Dyn<T>, x: T) -> Result<(), PanicInfo> {
+    if deadline_passed() {
+        // reported to the caller like a crash of the node; every property counts it as a skipped run
+        return Err(PanicInfo { msg: TIMEOUT_MSG.into(), loc: String::new() });
+    }
     guarded(|| v.update(x))
 }
 #[inline]
